@@ -270,7 +270,7 @@ Section Reader.
         | None => H (cur_chunk s1) = cur_id s1 /\ (calls <= calls1)%nat
         | Some x => s1 = s /\ calls1 = S calls /\
                     ((x = ENoData /\ store calls (cur_id s) = SData []) \/
-                     exists c, x = EStore c /\ store calls (cur_id s) = SFail c)
+                     exists c, x = store_err c /\ store calls (cur_id s) = SFail c)
         end
     end.
   Proof.
@@ -327,7 +327,7 @@ Section ReadSpec.
          (calls <= calls')%nat /\
          match e with
          | None => Z.of_nat (length d) = Z.of_nat (length acc) + Z.min (Z.of_nat remaining) (L - pos s)
-         | Some x => exists c k i, x = EStore c /\ (calls <= k < calls')%nat /\ store k i = SFail c
+         | Some x => exists c k i, x = read_err (store_err c) /\ (calls <= k < calls')%nat /\ store k i = SFail c
          end
      | _ => False
      end) \/ Collision H.
@@ -345,7 +345,7 @@ Section ReadSpec.
     assert (Hload : (exists x, (if (length (cur_chunk s) =? 0)%nat then load_chunk store nc calls s else (s, calls, None))
                               = (s, S calls, Some x) /\
                               ((x = ENoData /\ store calls (cur_id s) = SData []) \/
-                               exists c, x = EStore c /\ store calls (cur_id s) = SFail c)) \/
+                               exists c, x = store_err c /\ store calls (cur_id s) = SFail c)) \/
                     (exists s1 calls1, (if (length (cur_chunk s) =? 0)%nat then load_chunk store nc calls s else (s, calls, None))
                               = (s1, calls1, None) /\ ipos_ok H idx s1 /\ pos s1 = pos s /\ cur_idx s1 = cur_idx s /\
                               cur_off s1 = cur_off s /\ cur_id s1 = cur_id s /\ H (cur_chunk s1) = cur_id s1 /\
@@ -496,6 +496,9 @@ Lemma slice_len0 {A} (l : list A) s : slice l s 0 = [].
 Proof. reflexivity. Qed.
 
 
+Definition p_lt_L_and_fault (p L : Z) (store : store_t) (calls calls' : nat) (x : err) : Prop :=
+  p < L /\ exists c k i, x = read_err (store_err c) /\ (calls <= k < calls')%nat /\ store k i = SFail c.
+
 Lemma read_spec H idx blob store nc calls s plen :
   index_describes H idx blob -> snd nc = H (fst nc) -> store_sound H store -> ipos_ok H idx s ->
   (0 <= pos s <= Z.of_nat (length blob) /\
@@ -514,7 +517,10 @@ Proof.
     destruct (read_loop (read_fuel plen) store nc idx calls s plen []) as [[[[s' calls'] d] e]| |]; try contradiction.
     destruct Hr as [A [B [C [D E']]]]. cbn. repeat split; auto; try lia.
     destruct e as [x|].
-    + destruct E' as [c [k [i [-> [Hk Hst]]]]]. split; [lia|]. exists k, i. split; assumption.
+    + destruct E' as [c [k [i [-> [Hk Hst]]]]].
+      assert (Hx : p_lt_L_and_fault (pos s) (Z.of_nat (length blob)) store calls calls' (read_err (store_err c))).
+      { split; [lia|]. exists c, k, i. split; [reflexivity|]. split; assumption. }
+      unfold store_err, read_err in *. destruct (N.eqb c code_bare_eof); exact Hx.
     + rewrite HL in E'. cbn [length] in E'. split; lia.
 Qed.
 
@@ -631,9 +637,14 @@ Section Fuse.
     destruct (read_spec H idx blob store nc calls s1 len Hd Hnc Hsound Hok1) as [[_ Hrd]|C]; [|right; exact C].
     left. unfold read_post in Hrd. rewrite Hp in Hrd.
     destruct (read (read_fuel len) store nc idx calls s1 len) as [[[[s2 calls2] d] e]| |]; try contradiction.
-    destruct Hrd as [A [B [C D]]]. destruct e as [[]|]; try contradiction; cbn.
+    destruct Hrd as [A [B [C D]]].
+    assert (Hfault : forall x, p_lt_L_and_fault off (Z.of_nat (length blob)) store calls calls2 x ->
+              (calls <= calls2)%nat /\
+              (off < 0 \/ Z.of_nat (length blob) < off \/
+               exists c k i, (calls <= k < calls2)%nat /\ store k i = SFail c)).
+    { intros x [_ [c [k [i [_ [D2 D3]]]]]]. split; [exact C|]. right. right. exists c, k, i. split; assumption. }
+    destruct e as [[]|]; cbn; try (apply (Hfault _ D)).
     - destruct D as [-> ->]. split; [exact C|]. cbn. repeat split; auto; lia.
-    - destruct D as [D1 [k [i [D2 D3]]]]. split; [exact C|]. right. right. exists code, k, i. split; assumption.
     - destruct D as [D1 D2]. split; [exact C|]. repeat split; auto; lia.
   Qed.
 
@@ -717,9 +728,9 @@ Proof.
   intros Hd Hs Hh nc st. destruct (read_refines_blob H maxsz idx blob store ops plen Hd Hs) as [[_ Hr]|C]; [|right; exact C].
   left. fold nc st in Hr. unfold read_post in Hr.
   destruct (read (read_fuel plen) store nc idx (snd st) (fst st) plen) as [[[[s' calls'] d] e]| |]; try contradiction.
-  destruct Hr as [_ [_ [_ Hr]]]. destruct e as [[]|]; try contradiction.
+  destruct Hr as [_ [_ [_ Hr]]].
+  destruct e as [[]|]; try (destruct Hr as [_ [c [k [i [_ [_ Hf]]]]]]; exfalso; exact (Hh _ _ _ Hf)).
   - right. split; [reflexivity|exact (proj1 Hr)].
-  - destruct Hr as [_ [k [i [_ Hf]]]]. exfalso. exact (Hh _ _ _ Hf).
   - left. split; [reflexivity|exact (proj2 Hr)].
 Qed.
 
